@@ -76,6 +76,15 @@ CLAIMS['C02'] = dict(
     note=('Step-level isolation only: the abort path of the executor (longjmp unwinding, push-buffer and per-iteration allocator reset) and serial equivalence are NOT decided. '
           'Trusted: PtrLock contracts and the interference stub (C06), signalConflict does not return.'))
 
+CLAIMS['C04'] = dict(
+    text=('Proof, per function, of the ring (Dijkstra-style) detector LocalTerminationDetection as STEP contracts over the whole detector state (thread count <= 16): initializeThread re-arms a holder '
+          'whatever its previous state (reuse, other thread counts); propToken hands the token with the given colour to exactly the successor; localTermination: without the token only the caller\'s '
+          'process colour darkens; with it the taint (black token, black process, work reported) is passed on to exactly the successor and the caller\'s colours are cleared, the master restarts a white '
+          'token and records whether the round was white; termination is announced ONLY by the master, only with a white incoming token, white process, no work reported AND a white previous round; '
+          'no other holder is written.'),
+    note=('Safety at step level only: the global invariant over histories (announced => no thread holds work) under the executors\' use, liveness, and the tree detector are NOT decided. '
+          'Trusted: a call is one step on the caller\'s own holder (nobody else writes it while it holds the token); seq_cst atomic fields lowered to plain fields.'))
+
 NA = {
     'C01': 'schedule/worklist-policy property of deeply templated executors (histories of several threads); outside CBMC\'s C++ reach and not a per-call contract',
     'C07': 'relation between different executions (determinism across schedules/thread counts) of a ~1000-line template executor; no single-call contract expresses it',
